@@ -6,7 +6,9 @@ One program `c<k>` = two modules `c<k>a`, `c<k>b` (all functions exported, cross
   r0             self recursion (depth <= 7), double argument carried through every level
   ma <-> mb      mutual recursion ACROSS the two modules; na <-> nb mutual recursion inside module a
                  through a `forward` declaration
-  lr + lt        computed goto: `jmpi` through a table of `lref` data items (label addresses)
+  lr + lt        computed goto: `jmpi` through a table of `lref` data items: plain, address form with positive and negative
+                 displacement, difference form label-label2+disp; the displacement is removed by `sub`/`add` before the
+                 jump, a constant difference enters the result by plain arithmetic
   tab            data: `ref` items holding the public addresses of local and imported functions
   ap             indirect call through an address loaded from `tab`; whole table handed to C (exttab)
   cb             function address taken as an operand and passed to C (extcb), which calls it back twice
@@ -134,17 +136,36 @@ def ap_func(r, name, tab, n):
             f"  call ptab, exttab, t, tb, {n}, a1, x0", "  mul r, r, 31", "  xor r, r, t", "  ret r", "  endfunc"]
 
 
-def lref_func(r, name, tab):
+def lref_func(r, name, tab, diff_jump=True):
     """computed goto through a table of label addresses kept in `lref` data (filled by whichever engine
-    prepares the function: interpreter, generator, lazy generator, bb generator)"""
+    prepares the function: interpreter, generator, lazy generator, bb generator).  Entries:
+      0  lref l0                plain address
+      1  lref l1, D1            address form with a positive displacement (consumer subtracts D1)
+      2  lref l2, lb, D2        difference form  l2 - lb + D2  (consumer subtracts D2 and adds the address of lb)
+      3  lref l3, -D3           address form with a negative displacement
+      4  lref lb                the base label of entry 2
+      5  lref l1, l1, D5        difference form whose value is the constant D5: consumed by plain arithmetic
+    the displacements and the `needs base` flags live in two i64 data tables next to it.
+    diff_jump=False: entry 2 is `lref l2, D2` instead (the interpreter stores label differences in units of its
+    code elements, not bytes — known finding C03:interp-lref-difference-unscaled — so base + difference is not a label)"""
     consts = [r.below(1000) for _ in range(4)]
-    L = [f"{name}: func {HHDR}", "  local i64:i, i64:t, i64:r, i64:tb", "  and i, a0, 3", f"  mov tb, {tab}",
-         "  mov t, p:(tb, i, 8)", "  jmpi t",
+    d1, d2, d3, d5 = 8 * (1 + r.below(500)), 1 + r.below(4000), 8 * (1 + r.below(500)), 1 + r.below(1 << 20)
+    dd, db = tab + "d", tab + "b"
+    L = [f"{dd}: i64 0, {d1}, {d2}, {-d3}", f"{db}: i64 0, 0, {1 if diff_jump else 0}, 0",
+         f"{name}: func {HHDR}", "  local i64:i, i64:t, i64:r, i64:tb, i64:u, i64:w", "  and i, a0, 3", f"  mov tb, {tab}",
+         "  mov t, p:(tb, i, 8)",
+         f"  mov u, {dd}", "  mov w, i64:(u, i, 8)", "  sub t, t, w",            # remove the displacement
+         f"  mov u, {db}", "  mov w, i64:(u, i, 8)", "  mov u, p:32(tb)", "  mul u, u, w", "  add t, t, u",   # + base (entry 2)
+         "  jmpi t",
          f"{name}_l0:", f"  add r, a1, {consts[0]}", f"  jmp {name}_end",
          f"{name}_l1:", f"  mul r, a1, {3 + consts[1]}", f"  jmp {name}_end",
+         f"{name}_lb:", "  mov r, 77", f"  jmp {name}_end",
          f"{name}_l2:", "  xor r, a1, a0", f"  add r, r, {consts[2]}", f"  jmp {name}_end",
-         f"{name}_l3:", "  sub r, a0, a1", f"{name}_end:", "  dlt t, x0, 1.0", "  add r, r, t", "  ret r", "  endfunc",
-         f"{tab}: lref {name}_l0", f"  lref {name}_l1", f"  lref {name}_l2", f"  lref {name}_l3"]
+         f"{name}_l3:", "  sub r, a0, a1", f"{name}_end:", "  dlt t, x0, 1.0", "  add r, r, t",
+         "  mov t, i64:40(tb)", "  mul r, r, 31", "  add r, r, t",                 # the constant difference
+         "  ret r", "  endfunc",
+         f"{tab}: lref {name}_l0", f"  lref {name}_l1, {d1}", (f"  lref {name}_l2, {name}_lb, {d2}" if diff_jump else f"  lref {name}_l2, {d2}"), f"  lref {name}_l3, {-d3}",
+         f"  lref {name}_lb", f"  lref {name}_l1, {name}_l1, {d5}"]
     return L
 
 
@@ -331,7 +352,7 @@ def gen_c03_program(rng, name, opts=None, many_doubles=False, block_positions=()
     # label addresses in data, indirect jump
     lr, lt = name + "a_lr", name + "a_lt"
     A.forwards.append(lt)
-    A.raw(lref_func(rng, lr, lt), lr)
+    A.raw(lref_func(rng, lr, lt, diff_jump=(opts or {}).get("lref_diff_jump", False)), lr)
     # table of function addresses (local and imported), indirect calls
     tab = name + "a_tab"
     cands = a_h + [r0, ma, na, lr] + b_h + [mb]
